@@ -317,16 +317,30 @@ def run(ctx):
                  "history")
     rdr = meths["_remove_dead_reminders"][0]
     txt = norm_stmt(rdr.node)
-    gk = [s for s in ast.walk(rdr.node) if isinstance(s, ast.Assign)
-          and isinstance(s.value, ast.BinOp) and isinstance(s.value.op, ast.Sub)]
+    from ..core.astutil import deref
+    # the statement that computes (old keys - new keys): an assignment, or the
+    # header of the loop that iterates it directly
+    gk = []
+    diff = None
+    for s_ in ast.walk(rdr.node):
+        cand = None
+        if isinstance(s_, ast.Assign):
+            cand = s_.value
+        elif isinstance(s_, ast.For):
+            cand = s_.iter
+        if cand is None:
+            continue
+        d_ = deref(rdr.node, cand)
+        if isinstance(d_, ast.BinOp) and isinstance(d_.op, ast.Sub) and not gk:
+            gk = [s_]
+            diff = d_
     dels = [s for s in ast.walk(rdr.node) if isinstance(s, ast.Delete)]
     okd = len(dels) >= 2 and any("self.reminders" in norm_stmt(d) for d in dels) \
         and any("self.reminder_keys" in norm_stmt(d) for d in dels)
-    okg = bool(gk) and "old_dict" in norm_stmt(gk[0].value.left) + norm_stmt(
-        src_of(rdr.node, gk[0].value.left)) and din in norm_stmt(gk[0].value.right) + "input_dict"
-    left_is_old = bool(gk) and ("self.cache" in norm_stmt(src_of(rdr.node, gk[0].value.left))
-                                or "self.cache" in norm_stmt(gk[0].value.left)
-                                or "old" in norm_stmt(gk[0].value.left))
+    rparams = [a.arg for a in rdr.node.args.args if a.arg != "self"]
+    left_is_old = diff is not None and "self.cache" in norm_stmt(diff.left) \
+        and rparams and rparams[0] in norm_stmt(diff.right) \
+        and "self.cache" not in norm_stmt(diff.right)
     # path rule: the purge is unconditional - no exit of the function is reachable
     # without computing the vanished keys, and nothing but the two loops guards
     # the deletions (the key COUNT says nothing about which keys vanished)
